@@ -72,10 +72,10 @@ def run(tier, seed):
     coverage = {
         "evaluations": ex,
         "distinct_nontrivial": r["distinct_nontrivial"],
-        "rule": ("case = (text, span|position, api in {to_string, write!, display(default), display(custom recording option), display(custom decorating option)}); "
+        "rule": ("case = (text, span|position, api in {to_string, write!, display(default), display(custom recording option), display(custom decorating option), write! with width/fill/precision/alternate flags}); "
                  "all strings of <= %d chars over {LF,CR,TAB,a,wide,2-byte} x all spans and positions are enumerated, "
                  "longer strings (<= 9 chars) long texts (up to ~1200 lines), a few huge texts (10 000+ lines), texts with one very wide line (70 .. 132 000 characters, crossing 2^8/2^15/2^16/2^17 cells) and texts with characters that have no agreed cell model (columns not judged there) are drawn from the seed; every case runs fault-free under all "
-                 "five APIs against the reference model, then with one injected fault per execution (k-th sink write or k-th callback call fails, "
+                 "six APIs against the reference model, then with one injected fault per execution (k-th sink write or k-th callback call fails, "
                  "transient or sticky, before or after writing). distinct_nontrivial counts distinct (text, start, end, kind) cases whose text is empty or "
                  "contains a non-'a' character, or whose span touches end of input or a line start; sampled cases are de-duplicated by hash."
                  % r["exhaustive_max_len"]),
